@@ -506,6 +506,11 @@ void *mmap(void *addr, size_t len, int prot, int flags, int fd, off_t off) {
   vshim_event e = {EV_MMAP, fd, prot, flags, 0, 0, 0, len, off};
   vshim_action a;
   call_pre(&e, &a);
+  if (a.action == ACT_FAIL) {
+    call_post(&e, -1, a.err);
+    errno = a.err;
+    return MAP_FAILED;
+  }
   void *r = real(addr, len, prot, flags, fd, off);
   int err = errno;
   call_post(&e, r == MAP_FAILED ? -1 : 0, r == MAP_FAILED ? err : 0);
@@ -518,6 +523,11 @@ void *mmap64(void *addr, size_t len, int prot, int flags, int fd, off64_t off) {
   vshim_event e = {EV_MMAP, fd, prot, flags, 0, 0, 0, len, off};
   vshim_action a;
   call_pre(&e, &a);
+  if (a.action == ACT_FAIL) {
+    call_post(&e, -1, a.err);
+    errno = a.err;
+    return MAP_FAILED;
+  }
   void *r = real(addr, len, prot, flags, fd, off);
   int err = errno;
   call_post(&e, r == MAP_FAILED ? -1 : 0, r == MAP_FAILED ? err : 0);
